@@ -288,6 +288,8 @@ def assume_result_of_call(fn, call_block, is_ok):
             ds = fn.whole_defs(p["local"]) if p is not None and not p["proj"] else []
             if len(ds) == 1 and ds[0][0] == "stmt" and ds[0][1]["k"] == "discr" and not ds[0][1]["place"]["proj"] and ds[0][1]["place"]["local"] in locs:
                 ty = fn.local_ty(ds[0][1]["place"]["local"])
+                if ty in ("?", ""):
+                    ty = fn.local_ty(t["dest"]["local"])          # a copy made by the normaliser: same type as the result
                 e = switch_edges(fn, sb)
                 if "ControlFlow<" in ty or "Result<" in ty:
                     ok_s, err_s = e.get("0", e["otherwise"]), e.get("1", e["otherwise"])
